@@ -554,6 +554,7 @@ func genFacts(repo string) string {
 	pairList(&out, "logout_response_kv", kvFacts(funcDecl(files["logout.go"], "logoutHandleFunc"), "logoutHandleFunc"))
 	pairList(&out, "attrquery_response_args", callArgs(funcDecl(files["attribute_query.go"], "attributeQueryHandleFunc"), "makeAttributeQueryResponse"))
 	pairList(&out, "idp_getmetadata_calls", callArgsAll(funcDeclRecv(files["identityprovider.go"], "IdentityProvider", "GetMetadata")))
+	pairList(&out, "newid_src", returnExprs(funcDecl(files["provider.go"], "NewID")))
 	pairList(&out, "decodeAuthNRequest_calls", callArgsAll(funcDecl(files["xml.go"], "DecodeAuthNRequest")))
 	pairList(&out, "decodeLogoutRequest_calls", callArgsAll(funcDecl(files["xml.go"], "DecodeLogoutRequest")))
 	pairList(&out, "sso_decode_call", callArgs(funcDecl(files["sso.go"], "ssoHandleFunc"), "xml.DecodeAuthNRequest"))
